@@ -8,7 +8,7 @@ from sx import rt
 from sx.models.io import make_source
 from sx.models.etree import make_treebuilder
 import ofxgen
-from harness.common import try_convert, try_construct, same_model, sym_value
+from harness.common import try_convert, try_construct, same_model, sym_value, NOWS
 from harness import c03, c09
 
 PID = "C17"
@@ -116,6 +116,26 @@ def h_serialize(ctx, cls):
     ctx.check("both trees read back to equal models", b1 is not None and b2 is not None and same_model(ctx, b1, b2))
 
 
+def h_client_serialize(ctx):
+    """the client's serializer on one request model, with the per-call overrides ofxget's scan uses: the model is not
+    modified and the same call gives the same bytes whatever was serialized in between"""
+    from ofxtools.Client import OFXClient
+    from ofxtools import models
+    client = OFXClient("http://x", userid="u", clientuid="CUID-1", org="O", fid="F", version=203)
+    ofx = models.OFX(signonmsgsrqv1=client.signon(ctx.str("pw", 1, NOWS)))
+    v1 = ctx.choice("version_in_between", [102, 103, 151, 203])
+    v2 = ctx.choice("version", [102, 103, 160, 200, 220])
+    pretty, close = ctx.bool("prettyprint"), (ctx.bool("close_elements") if v2 < 200 else True)
+    fp_i, fp_cls = inst_fp(ofx), class_state_fp()
+    first = client.serialize(ofx, version=v2, oldfileuid="NONE", newfileuid="NONE", prettyprint=pretty, close_elements=close)
+    ctx.check("writing does not modify the model instance", inst_fp(ofx) == fp_i)
+    client.serialize(ofx, version=v1, oldfileuid="NONE", newfileuid="NONE", prettyprint=not pretty, close_elements=True)
+    ctx.check("writing does not modify the model instance", inst_fp(ofx) == fp_i)
+    again = client.serialize(ofx, version=v2, oldfileuid="NONE", newfileuid="NONE", prettyprint=pretty, close_elements=close)
+    ctx.check("writing the same instance twice gives the same bytes", first == again)
+    ctx.check("writing does not modify class-level state of the library", class_state_fp() == fp_cls)
+
+
 # ---------------------------------------------------------------- parsing bytes
 def h_parse(ctx, n):
     body = "<OFX><A>" + ctx.str("d", n, [(0x21, 0x3B), (0x3D, 0x7E), (0xA1, 0xFF)]) + "</A></OFX>"
@@ -187,7 +207,7 @@ def h_dispatch(ctx):
     ctx.check("required-ness of the instance being used is still honoured after re-registration", none_ok and a.unconvert(None) is None)
 
 
-HARNESSES = dict(convert=h_convert, serialize=h_serialize, parse=h_parse, parse_v2=h_parse_v2, dispatch=h_dispatch)
+HARNESSES = dict(client_serialize=h_client_serialize, convert=h_convert, serialize=h_serialize, parse=h_parse, parse_v2=h_parse_v2, dispatch=h_dispatch)
 
 META = dict(
     bounds=dict(convert="per class: the class's document with one element text symbolic (its type's lexical space, or 2 junk characters), converted, an unrelated workload, converted again",
@@ -225,6 +245,7 @@ def instances(tier, seed):
         if els:
             mk(f"convert[{n}]", "convert", dict(cls=n, attrs=els))
         mk(f"serialize[{n}]", "serialize", dict(cls=n))
+    mk("client_serialize", "client_serialize", {})
     for n in (1, 2):
         mk(f"parse[{n}]", "parse", dict(n=n))
         mk(f"parse_v2[{n}]", "parse_v2", dict(n=n))
